@@ -82,8 +82,13 @@ def _flag_edge_justified(g: CFG, n: Node, lab, justified: EdgePred, start: Optio
         return True  # edge infeasible
     plain = g.reach([g.entry if start is None else start])
     for d in feasible:
+        d_start = g.entry if start is None else start
         if d.id not in plain:
-            return False  # defined before the region under analysis: nothing is known about it
+            # defined before the region under analysis (a loop-invariant flag computed ahead of the loop):
+            # judge it from the function entry, provided the flag is not redefined inside the region
+            if any(node_defines(x, fname) for x in (g.nodes[i] for i in plain)):
+                return False
+            d_start = g.entry
         v = getattr(d.ast, "value", None)
         if v is not None and not isinstance(v, ast.Constant) and not none_mode:
             # `flag = E` followed by `if flag:` is the test `if E:` in disguise
@@ -109,7 +114,7 @@ def _flag_edge_justified(g: CFG, n: Node, lab, justified: EdgePred, start: Optio
         def skip_edge(a, l, b):
             return a.kind in ("test", "for") and l in ("T", "F") and j2(a, l)
 
-        reached = g.reach([g.entry if start is None else start], skip_edge=skip_edge)
+        reached = g.reach([d_start], skip_edge=skip_edge)
         if d.id in reached:
             # the definition itself is not guarded: it still does no harm if, from it, the test is only
             # reached (without the flag being redefined on the way) across justified edges
